@@ -214,6 +214,19 @@ pub fn run(ctx: &mut Ctx) {
             check_pair(ctx, &Tree::Arr(left.clone()), &Tree::Arr(right.clone()));
             check_pair(ctx, &Tree::Obj(vec![("k".into(), Tree::Arr(left))]), &Tree::Obj(vec![("k".into(), Tree::Arr(right))]));
         }
+        if i % 16 == 5 {
+            let (o1, o2) = gen::resplit_objects(&mut rng);
+            check_pair(ctx, &o1, &o2);
+            check_pair(ctx, &Tree::Arr(vec![o1.clone()]), &Tree::Arr(vec![o2.clone()]));
+            // a member that is an array on the left and one of its elements on the right is
+            // NOT contained (a bare scalar matches only at the top level)
+            if let Tree::Arr(v) = &a {
+                if let Some(x) = v.iter().find(|x| x.is_scalar()) {
+                    check_pair(ctx, &Tree::Obj(vec![("k".into(), a.clone())]), &Tree::Obj(vec![("k".into(), x.clone())]));
+                    check_pair(ctx, &Tree::Arr(vec![Tree::Obj(vec![("k".into(), a.clone())])]), &Tree::Arr(vec![Tree::Obj(vec![("k".into(), x.clone())])]));
+                }
+            }
+        }
         if i % 7 == 3 {
             // order and multiplicity are ignored: a right array longer than the left one, made of
             // the left one's elements repeated and shuffled, is still contained
